@@ -38,6 +38,7 @@ PAIRS = [('i4', 'i4'), ('i4', 'i8'), ('u4', 'u4'), ('u4', 'u8'), ('u4', 'i8'), (
 def _case(n, initial, final, offset, pair, container='array', delta=0, vseed=0, layout='C'):
     return {'n': n, 'initial': initial, 'final': final, 'offset': offset, 'in': pair[0], 'out': pair[1],
             'container': container, 'delta': delta, 'vseed': vseed, 'layout': layout,
+            'failed_call_before': (n + vseed) % 5 == 2,
             'out_layout': 'strided' if (n + int(initial) + 2 * int(final) + offset + vseed) % 4 == 1 else 'C'}
 
 
@@ -121,6 +122,11 @@ def kernel_call(case, arena):
             out = gaps[::2]                      # a column of a wider table / every second slot of a buffer
         else:
             out = arena.alloc(n_out, odt, fill=77)
+    if case.get('failed_call_before'):
+        try:
+            cumsum(np.arange(5), np.zeros(9, dtype=np.int64), initial=True, final=True)      # wrong length: rejected
+        except Exception:
+            pass
     T = case.get('threads')
     if T:
         import numba
